@@ -5,5 +5,8 @@ CONSTANTS
   Prio = {1, 2}
   MaxTasks = 2
   MaxOps = 4
+  HkSet = {FALSE}
+  CondSet <- NoCondSet
+  CSet = {0}
 PROPERTY AllComplete
 CHECK_DEADLOCK FALSE
